@@ -75,6 +75,51 @@ pub struct ClientCfg {
     pub order: u8,
 }
 
+/// The server of the request's origin answers the first arrival with a redirect to the same
+/// request on `to_origin` (the default client follows redirects through tower-http's
+/// FollowRedirect with the standard policy).
+#[derive(Clone, Debug, Serialize, Deserialize, PartialEq)]
+pub struct RedirectPlan {
+    pub status: u16,
+    pub to_origin: usize,
+}
+
+/// What FollowRedirect does with (status, method, request body): None = not followed, the caller
+/// gets the 3xx response; Some(method) = followed with this method (and an empty body - a body
+/// that is not known to be empty cannot be replayed).
+pub fn redirect_outcome(client_follows: bool, status: u16, method: &str, body_len: usize) -> Option<String> {
+    if !client_follows {
+        return None; // Client::builder() has no redirect layer unless with_standard_redirect_policy() is called
+    }
+    match status {
+        301 | 302 => {
+            if method == "POST" {
+                Some("GET".into())
+            } else if body_len == 0 {
+                Some(method.into())
+            } else {
+                None
+            }
+        }
+        303 => Some(if method == "HEAD" { "HEAD".into() } else { "GET".into() }),
+        307 | 308 => {
+            if body_len == 0 {
+                Some(method.into())
+            } else {
+                None
+            }
+        }
+        _ => None,
+    }
+}
+
+impl ClientCfg {
+    /// the redirect layer is only there when with_standard_redirect_policy() was called (order bits 3-4)
+    pub fn follows_redirects(&self) -> bool {
+        matches!((self.order >> 3) & 3, 1 | 2)
+    }
+}
+
 #[derive(Clone, Debug, Serialize, Deserialize)]
 pub struct ReqPlan {
     pub id: u32,
@@ -85,6 +130,11 @@ pub struct ReqPlan {
     /// 0: /r/<id>/<tail>; 1: the root path "/"; 2: no path at all (http://host?query)
     #[serde(default)]
     pub path_form: u8,
+    #[serde(default)]
+    pub redirect: Option<RedirectPlan>,
+    /// a User-Agent supplied by the caller (the client only adds its own when there is none)
+    #[serde(default)]
+    pub user_agent: Option<String>,
     pub query: Option<String>,
     pub extra: Option<String>,
     pub body_len: usize,
@@ -183,6 +233,11 @@ pub fn request_uri(origin: &str, p: &ReqPlan) -> String {
     s
 }
 
+/// Where the redirect of request `p` points: the same request on another origin, marked hop=1.
+pub fn redirect_location(to_origin: &str, p: &ReqPlan) -> String {
+    format!("{}/r/{}/{}?hop=1", to_origin, p.id, p.path_tail)
+}
+
 pub fn build_request(origin: &str, p: &ReqPlan, progress: Arc<Mutex<u64>>) -> http::Request<ChunkBody> {
     let mut body = ChunkBody::new(req_body(p.id, p.body_len), p.body_chunk, p.body_delay_ms);
     body.progress = Some(progress);
@@ -195,6 +250,9 @@ pub fn build_request(origin: &str, p: &ReqPlan, progress: Arc<Mutex<u64>>) -> ht
     if let Some(e) = &p.extra {
         b = b.header("x-extra", e.as_str());
     }
+    if let Some(ua) = &p.user_agent {
+        b = b.header(http::header::USER_AGENT, ua.as_str());
+    }
     if p.upgrade {
         b = b.header(http::header::UPGRADE, "sim").header(http::header::CONNECTION, "upgrade");
     }
@@ -205,6 +263,12 @@ pub fn build_request(origin: &str, p: &ReqPlan, progress: Arc<Mutex<u64>>) -> ht
 
 /// One client request task. Records everything in `rec`.
 pub async fn run_request(net: Network, svc: ClientSvc, origin: String, p: ReqPlan, recs: Arc<Mutex<BTreeMap<u32, RRec>>>) {
+    run_request_to(net, svc, origin, None, false, p, recs).await
+}
+
+/// `redirect_target`: the origin the request is redirected to, when its plan says so; `follows`:
+/// the client was built with a redirect policy.
+pub async fn run_request_to(net: Network, svc: ClientSvc, origin: String, redirect_target: Option<String>, follows: bool, p: ReqPlan, recs: Arc<Mutex<BTreeMap<u32, RRec>>>) {
     let progress = Arc::new(Mutex::new(0u64));
     if p.start_ms > 0 {
         tokio::time::sleep(Duration::from_millis(p.start_ms)).await;
@@ -291,9 +355,25 @@ pub async fn run_request(net: Network, svc: ClientSvc, origin: String, p: ReqPla
         }
         return;
     }
+    // a redirect that cannot be followed (a body that cannot be replayed) is handed to the caller as it is
+    let followed_method = p.redirect.as_ref().and_then(|r| redirect_outcome(follows, r.status, &p.method, p.body_len));
+    if let (Some(r), None) = (&p.redirect, &followed_method) {
+        if resp.status().as_u16() != r.status {
+            set(ROutcome::Wrong(format!("status {} but the server answered request {} with the redirect {}, which cannot be followed", resp.status().as_u16(), p.id, r.status)));
+        } else if hdr("x-req-id") != Some(p.id.to_string()) {
+            set(ROutcome::Wrong(format!("redirect response carries id {:?}, request was {}", hdr("x-req-id"), p.id)));
+        } else {
+            set(ROutcome::Ok);
+        }
+        return;
+    }
+    let origin = match (&p.redirect, redirect_target) {
+        (Some(_), Some(t)) => t,
+        _ => origin,
+    };
     let expect_status = infra::status_for(p.id);
     if resp.status().as_u16() != expect_status {
-        set(ROutcome::Wrong(format!("status {} but the server produced {} for request {}", resp.status().as_u16(), expect_status, p.id)));
+        set(ROutcome::Wrong(format!("status {} but the server produced {} for request {} (location header of what was received: {:?})", resp.status().as_u16(), expect_status, p.id, hdr("location"))));
         return;
     }
     if hdr("x-req-id") != Some(p.id.to_string()) {
@@ -315,7 +395,7 @@ pub async fn run_request(net: Network, svc: ClientSvc, origin: String, p: ReqPla
         return;
     }
     // ---- read and verify the body
-    let is_head = p.method == "HEAD";
+    let is_head = followed_method.as_deref().unwrap_or(p.method.as_str()) == "HEAD";
     let expect_len = if is_head { 0 } else { p.handler.resp_len };
     let mut got = 0usize;
     let body = resp.body_mut();
@@ -518,6 +598,8 @@ pub fn gen_request(r: &mut Rng, id: u32, origins: &[OriginCfg], client_alpn_h2: 
         ver,
         path_tail: r.pick(&TAILS).to_string(),
         path_form: *r.weighted(&[(10, 0u8), (1, 1), (1, 2)]),
+        redirect: None,
+        user_agent: if r.chance(1, 5) { Some(format!("caller/{}", id)) } else { None },
         query: if q.is_empty() { None } else { Some(q.to_string()) },
         extra: if r.bool() { Some(format!("v{}", r.below(1000))) } else { None },
         body_len,
@@ -534,6 +616,7 @@ pub fn gen_request(r: &mut Rng, id: u32, origins: &[OriginCfg], client_alpn_h2: 
             resp_delay_ms: *r.weighted(&[(3, 0u64), (1, 1), (1, 5)]),
             fail: false,
             upgrade: false,
+            redirect: None,
         },
     }
 }
@@ -572,6 +655,20 @@ fn gen_case(seed: u64) -> E2eCase {
             p.handler.upgrade = true;
             p.method = "GET".into();
             p.body_len = 0;
+        }
+        // the origin's server redirects this request (to itself or to another origin)
+        // (the follow-up request keeps the version of the original, so the target must speak it)
+        let speaks = |o: &OriginCfg, v: Ver| match o.proto {
+            ServerProto::H1 => v != Ver::H2 && !(o.tls && o.alpn_h2 && client.alpn_h2),
+            ServerProto::H2 => v == Ver::H2 || (o.tls && o.alpn_h2 && client.alpn_h2),
+            ServerProto::Auto => true,
+        };
+        let targets: Vec<usize> = (0..origins.len()).filter(|i| speaks(&origins[*i], p.ver)).collect();
+        if !p.upgrade && p.path_form == 0 && !targets.is_empty() && r.chance(1, 6) {
+            p.redirect = Some(RedirectPlan { status: *r.pick(&[301u16, 302, 303, 307, 308]), to_origin: *r.pick(&targets) });
+            if r.chance(1, 2) {
+                p.body_len = 0; // so that 307 / 308 and non-POST 301 / 302 can be followed as well
+            }
         }
         requests.push(p);
     }
@@ -631,7 +728,20 @@ pub fn run_world(case: &E2eCase, horizon_s: u64) -> (RunResult, Vec<simrt::Panic
             let _pump_guard = AbortOnDrop(pump);
             let net = Network::new(case.seed, case.net.clone());
             let log = Arc::new(Mutex::new(HandlerLog::default()));
-            let plans: Arc<BTreeMap<u32, HandlerPlan>> = Arc::new(case.requests.iter().map(|p| (p.id, p.handler.clone())).collect());
+            let plans: Arc<BTreeMap<u32, HandlerPlan>> = Arc::new(
+                case.requests
+                    .iter()
+                    .map(|p| {
+                        let mut h = p.handler.clone();
+                        if let Some(r) = &p.redirect {
+                            if let Some(to) = case.origins.get(r.to_origin) {
+                                h.redirect = Some((r.status, redirect_location(&to.uri, p)));
+                            }
+                        }
+                        (p.id, h)
+                    })
+                    .collect(),
+            );
             let exec = SimExecutor::default();
             let mut servers = vec![];
             for o in &case.origins {
@@ -651,7 +761,8 @@ pub fn run_world(case: &E2eCase, horizon_s: u64) -> (RunResult, Vec<simrt::Panic
             let mut tasks = vec![];
             for p in &case.requests {
                 let origin = case.origins[p.origin].uri.clone();
-                tasks.push(tokio::task::spawn_local(run_request(net.clone(), svc.clone(), origin, p.clone(), recs.clone())));
+                let target = p.redirect.as_ref().and_then(|r| case.origins.get(r.to_origin)).map(|o| o.uri.clone());
+                tasks.push(tokio::task::spawn_local(run_request_to(net.clone(), svc.clone(), origin, target, case.client.follows_redirects(), p.clone(), recs.clone())));
             }
             let all = async {
                 for t in tasks {
@@ -756,8 +867,10 @@ pub fn panic_violations(panics: &[simrt::PanicRec], out: &mut Outcome) {
 fn excused(case: &E2eCase, res: &RunResult, p: &ReqPlan, rec: &RRec) -> Option<&'static str> {
     let n = res.net.inner.lock();
     let okey = origin_key(&case.origins[p.origin].uri.parse::<http::Uri>().unwrap());
+    // (a redirected request also depends on the connections of the origin it is sent on to)
+    let tkey = p.redirect.as_ref().and_then(|r| case.origins.get(r.to_origin)).map(|o| origin_key(&o.uri.parse::<http::Uri>().unwrap()));
     for c in &n.conns {
-        if c.origin != okey {
+        if c.origin != okey && Some(&c.origin) != tkey.as_ref() {
             continue;
         }
         if c.fate != DialFate::Ok {
@@ -851,29 +964,61 @@ impl Scenario for E2eSim {
                 viol("unknown_request", json!({"kind": "unknown_id"}), format!("handler saw a request with unknown id {} target {}", s.id, s.target));
                 continue;
             };
-            let okey = origin_key(&case.origins[p.origin].uri.parse::<http::Uri>().unwrap());
+            // what this arrival must look like: the request as sent (hop 0) or its redirected form (hop 1)
+            let followed = p.redirect.as_ref().and_then(|r| redirect_outcome(case.client.follows_redirects(), r.status, &p.method, p.body_len).map(|m| (r, m)));
+            let (exp_origin, exp_method, exp_pq, exp_body): (String, String, String, usize) = match (s.hop, &followed) {
+                (1, Some((r, m))) => {
+                    let to = &case.origins[r.to_origin.min(case.origins.len() - 1)].uri;
+                    let loc: http::Uri = redirect_location(to, p).parse().unwrap();
+                    (to.clone(), m.clone(), loc.path_and_query().map(|x| x.as_str().to_string()).unwrap_or_default(), 0)
+                }
+                (1, None) => {
+                    viol("request_corrupted", json!({"kind": "unexpected_redirect_followed"}), format!("request {} ({} with {} body bytes) was redirected with {:?}, which cannot be followed, but a follow-up request reached {}", p.id, p.method, p.body_len, p.redirect, s.origin));
+                    continue;
+                }
+                _ => {
+                    let u: http::Uri = request_uri(&case.origins[p.origin].uri, p).parse().unwrap();
+                    let pq = u.path_and_query().map(|x| x.as_str().to_string()).unwrap_or_default();
+                    // an empty path is sent as "/"
+                    (case.origins[p.origin].uri.clone(), p.method.clone(), if pq.is_empty() || pq.starts_with('?') { format!("/{}", pq) } else { pq }, p.body_len)
+                }
+            };
+            let okey = origin_key(&exp_origin.parse::<http::Uri>().unwrap());
             if origin_key_str(&s.origin) != okey {
-                viol("misrouted", json!({"kind": "wrong_server"}), format!("request {} for {} was handled by the server of {}", p.id, okey, s.origin));
+                viol("misrouted", json!({"kind": "wrong_server"}), format!("request {} (hop {}) for {} was handled by the server of {}", p.id, s.hop, okey, s.origin));
             }
-            if s.method != p.method {
-                viol("request_corrupted", json!({"kind": "method"}), format!("request {} sent {} but handler saw {}", p.id, p.method, s.method));
+            if s.method != exp_method {
+                viol("request_corrupted", json!({"kind": "method"}), format!("request {} (hop {}) must arrive as {} but handler saw {}", p.id, s.hop, exp_method, s.method));
             }
             if s.extra != p.extra {
                 viol("request_corrupted", json!({"kind": "header"}), format!("request {} sent x-extra {:?} but handler saw {:?}", p.id, p.extra, s.extra));
             }
-            // path and query as sent
-            let expect_pq = {
-                let u: http::Uri = request_uri(&case.origins[p.origin].uri, p).parse().unwrap();
-                let pq = u.path_and_query().map(|x| x.as_str().to_string()).unwrap_or_default();
-                // an empty path is sent as "/"
-                if pq.is_empty() || pq.starts_with('?') { format!("/{}", pq) } else { pq }
-            };
-            let seen_pq = s.target.parse::<http::Uri>().ok().and_then(|u| u.path_and_query().map(|x| x.as_str().to_string())).unwrap_or_default();
-            if seen_pq != expect_pq {
-                viol("request_corrupted", json!({"kind": "target"}), format!("request {} sent target {} but handler saw {}", p.id, expect_pq, s.target));
+            // a caller-supplied User-Agent is kept, otherwise the library's default is present
+            match (&p.user_agent, &s.user_agent) {
+                (Some(want), got) if got.as_deref() != Some(want.as_str()) => {
+                    viol("request_corrupted", json!({"kind": "user_agent"}), format!("request {} sent User-Agent {:?} but handler saw {:?}", p.id, want, got));
+                }
+                (None, None) => viol("request_corrupted", json!({"kind": "user_agent"}), format!("request {} arrived without any User-Agent (the client adds a default one)", p.id)),
+                _ => {}
             }
-            if s.body_done_ms.is_some() && s.body_len != p.body_len && !p.upgrade {
-                viol("request_corrupted", json!({"kind": "body_len"}), format!("request {} sent {} body bytes, handler read {}", p.id, p.body_len, s.body_len));
+            let seen_pq = s.target.parse::<http::Uri>().ok().and_then(|u| u.path_and_query().map(|x| x.as_str().to_string())).unwrap_or_default();
+            if seen_pq != exp_pq {
+                viol("request_corrupted", json!({"kind": "target"}), format!("request {} (hop {}) sent target {} but handler saw {}", p.id, s.hop, exp_pq, s.target));
+            }
+            if s.body_done_ms.is_some() && s.body_len != exp_body && !p.upgrade {
+                viol("request_corrupted", json!({"kind": "body_len"}), format!("request {} (hop {}) sent {} body bytes, handler read {}", p.id, s.hop, exp_body, s.body_len));
+            }
+            // after a redirect the Host header names the new authority (HTTP/1; HTTP/2 has none)
+            if s.hop == 1 && s.version != http::Version::HTTP_2 {
+                let u: http::Uri = exp_origin.parse().unwrap();
+                let default_port = if u.scheme_str().map(|x| x.eq_ignore_ascii_case("https")).unwrap_or(false) { 443 } else { 80 };
+                let want = match u.port_u16() {
+                    Some(pt) if pt != default_port => format!("{}:{}", u.host().unwrap_or(""), pt),
+                    _ => u.host().unwrap_or("").to_string(),
+                };
+                if s.host.as_deref().map(|h| h.to_ascii_lowercase()) != Some(want.to_ascii_lowercase()) {
+                    viol("request_corrupted", json!({"kind": "host_after_redirect"}), format!("request {} redirected to {} carried Host {:?}, expected {:?}", p.id, exp_origin, s.host, want));
+                }
             }
         }
         // a connection taken over by an upgrade never serves another request
@@ -889,7 +1034,8 @@ impl Scenario for E2eSim {
             *handled.entry(s.id).or_insert(0) += 1;
         }
         for (id, n) in &handled {
-            if *n > 1 {
+            let hops = case.requests.iter().find(|p| p.id == *id).map(|p| if p.redirect.as_ref().and_then(|r| redirect_outcome(case.client.follows_redirects(), r.status, &p.method, p.body_len)).is_some() { 2 } else { 1 }).unwrap_or(1);
+            if *n > hops {
                 viol("handled_twice", json!({"kind": "duplicate"}), format!("request {} reached the handler {} times", id, n));
             }
         }
@@ -1112,6 +1258,16 @@ pub fn shrink_e2e(case: &E2eCase) -> Vec<E2eCase> {
         if r.path_form != 0 {
             let mut c = case.clone();
             c.requests[i].path_form = 0;
+            v.push(c);
+        }
+        if r.redirect.is_some() {
+            let mut c = case.clone();
+            c.requests[i].redirect = None;
+            v.push(c);
+        }
+        if r.user_agent.is_some() {
+            let mut c = case.clone();
+            c.requests[i].user_agent = None;
             v.push(c);
         }
         if r.query.is_some() || !r.path_tail.is_empty() || r.extra.is_some() {
